@@ -3,11 +3,19 @@
 # quick/thorough: checks = rapid cases per rapid test per shard, shards = processes.
 
 ASSUMPTIONS = {
+    "C05": ["harness signature scheme (vcrypto) as trusted base", "reference message validator in harness/vref written from FIP-0086 validity rules and the documented relevance window", "committees are static per instance during a case", "the Go scheduler is not owned by the harness: the concurrent part is a -race stress run"],
+    "C13": ["harness signature scheme (vcrypto) as trusted base", "one-shot validation on a fresh participant is the comparison point (itself checked by C05)", "completion uses the production value-inference step via a build-time accessor"],
     "C04": ["harness signature scheme (vcrypto) as trusted base for unforgeability", "reference validator and reference delta application in harness/vref written from the property statement", "no nil certificates are passed (caller precondition)"],
     "C08": ["integer arithmetic of the Go runtime and math/big", "power tables are well-formed (positive powers, distinct ids) as gpbft.PowerTable.Add demands"],
 }
 
 PROPS = {
+    "C05": dict(pkg="t_msgs", run="^TestC05", level="exploration",
+                quick=dict(checks=1200, shards=8, timeout=400, race=True, race_run="^TestC05Concurrent", race_checks=40),
+                thorough=dict(checks=30000, shards=16, timeout=2400, race=True, race_run="^TestC05(Concurrent|History)", race_checks=1500)),
+    "C13": dict(pkg="t_msgs", run="^TestC13", level="exploration",
+                quick=dict(checks=1200, shards=8, timeout=400),
+                thorough=dict(checks=30000, shards=16, timeout=2400)),
     "C04": dict(pkg="t_certs", run="^TestC04", level="exploration",
                 quick=dict(checks=1500, shards=8, timeout=400),
                 thorough=dict(checks=40000, shards=16, timeout=2400)),
